@@ -53,13 +53,14 @@ PROPS["C08"] = {
     "files": ["types/validator_set.go", "types/validator.go", "state/store.go"],
     "groups": [
         {"dir": "types",
-         "quick": ["VP_C08_Update_n1_c1", "VP_C08_Update_n2_c1", "VP_C08_Update_n2_c2", "VP_C08_Rescale_n2", "VP_C08_Rotation_n2_T3", "VP_C08_Rotation_n2_T4", "VP_C08_Rotation_n3_T4"],
+         "quick": ["VP_C08_Update_n1_c1", "VP_C08_Update_n2_c1", "VP_C08_Update_n2_c2", "VP_C08_UpdatePriorities", "VP_C08_Rescale_n2", "VP_C08_Rotation_n2_T3", "VP_C08_Rotation_n2_T4", "VP_C08_Rotation_n3_T4"],
          "thorough": ["VP_C08_Update_n3_c2", "VP_C08_Rescale_n3", "VP_C08_Rotation_n3_T5", "VP_C08_Rotation_n3_T6", "VP_C08_Rotation_n2_big"]},
         {"dir": "state",
          "quick": ["VP_C08_History_n2_low", "VP_C08_History_n2_low_change", "VP_C08_History_n2_checkpoint", "VP_C08_History_n3_checkpoint", "VP_C08_History_n2_checkpoint_change"],
          "thorough": []},
     ],
     "bounds": {
+        "priorities after a batch": "3 validators of power 10 after 0..2 rounds; batches {newcomer}, {removal + newcomer} in both orders, {power change + newcomer + removal}, newcomer power 1/10/30: every priority equals the specified one (newcomer penalty on the total after updates before removals, window, centring)",
         "rescale": "RescalePriorities on 2 (thorough 3) validators with arbitrary priorities in [-24,24] and a window of 1..8 against the specified ceiling division",
         "update": "current set of n = 1..2 (thorough 3) validators (powers 5,3,3) built by the real NewValidatorSet; batch of c = 1..2 changes, each: address from a pool of n+2 (existing or fresh, duplicates possible), power = 0 | symbolic in [1,2^12] | symbolic negative or above the cap | symbolic within 16 of MaxTotalVotingPower; the reversed batch is applied to a copy",
         "rotation": "n = 2..3 validators with symbolic powers, total <= 3..6 (one configuration with total up to MaxTotalVotingPower), T = total steps of the real IncrementProposerPriority(1) against the specified algorithm (centre, add power, pick max with address tie-break, subtract total)",
@@ -252,11 +253,15 @@ PROPS["C09"] = {
 PROPS["C20"] = {
     "files": ["light/rpc/client.go", "types/tx.go", "types/results.go", "state/store.go"],
     "groups": [
+        {"dir": "rpc/core",
+         "quick": ["VP_C20_CoreTx"],
+         "thorough": []},
         {"dir": "light/rpc",
          "quick": ["VP_C20_Block", "VP_C20_BlockByHash", "VP_C20_BlockResults", "VP_C20_Tx", "VP_C20_CommitVals"],
          "thorough": []},
     ],
     "bounds": {
+        "full-node side": "the real rpc/core Tx handler over a real kv transaction index and a block of three transactions drawn from two values (duplicates possible): the served proof validates against the data hash, proves the returned bytes and sits at the returned index",
         "verifying client": "a concrete 3-block chain (2, 3, 0 transactions) whose header hashes are the genuine functions of the content (data hash by the real Txs.Hash, LastResultsHash by the real state.ABCIResponsesResultsHash of the previous block's DeliverTx results); light client = the C09 contract (returns the verified light block of a height); backend honest or falsifying one thing: block body under the verified header (via the wire format), a self-consistent other block, a DeliverTx result code, the returned transaction bytes, a valid proof of another transaction, the index, the proof's own data; heights 1..2, both transactions; every proof the full-node side builds (Txs.Proof) validates against the data hash",
     },
     "stubs": ["rpcclient.Client backend and LightClient = harness objects", "sha256 concrete"],
